@@ -2522,4 +2522,37 @@ theorem stack_contains (cfgs : List WCfg) (sp sp' : Space) (ws : List WS)
       exact ⟨a1, a2, a3, obsB_of_contains sp bs r.obs hB c1, fun t ht => obsB_of_contains sp bs t hB (c2 t ht)⟩) o ho
   exact contains_of_sig_bounds sp' bs' o g1 hB' g2
 
+/-! ### a step that ends the episode returns what `reset()` of the stack would return -/
+
+theorem updateArr_done_eq_resetArr (first : Bool) (buf o : Arr) (t : Option Arr) :
+    (updateArr first buf o true t).1 = resetArr first buf o := by
+  simp only [updateArr, resetArr, updateRow, resetRow, if_true, roll_length]
+
+theorem fsUpdate_done_eq_fsReset (firsts : List (String × Bool)) (bufs o : Obs) (t : Option Obs) :
+    (fsUpdate firsts bufs o true t).1 = fsReset firsts bufs o := by
+  simp only [fsUpdate, fsReset]
+  apply List.map_congr_left
+  intro kv _
+  rw [updateArr_done_eq_resetArr]
+
+theorem WS_step_done_obs (w : WS) (r : Rec) (hd : r.done = true) : (w.step r).2.obs = (w.reset r.obs).2 := by
+  cases w with
+  | frameStack firsts bufs =>
+    simp only [WS.step, WS.reset, hd]
+    exact fsUpdate_done_eq_fsReset _ _ _ _
+  | transpose keys => rfl
+  | extract key => rfl
+  | monitor ret len => simp [WS.step, WS.reset, hd]
+  | checkNan => rfl
+
+theorem stackStep_done_obs (ws : List WS) : ∀ r : Rec, r.done = true →
+    (stackStep ws r).2.obs = (stackReset ws r.obs).2 := by
+  induction ws with
+  | nil => intro r _; rfl
+  | cons w ws ih =>
+    intro r hd
+    have hd' : (w.step r).2.done = true := (WS_step_passthrough w r).2.1.trans hd
+    simp only [stackStep, stackReset]
+    rw [ih _ hd', WS_step_done_obs w r hd]
+
 end SB3Verif.Lemmas.Wrappers
